@@ -5,11 +5,18 @@
 use crate::engine::{Obs, B};
 use crate::models::dewey::cap_digit_runs;
 use crate::models::summary as ms;
-use crate::props::{c01, c03, c04, c09, c14};
+use crate::props::{c01, c02, c03, c04, c05, c06, c08, c09, c11, c14, c18, c19};
 use crate::targets;
 
 /// (fuzz target, property it serves)
-pub const FUZZ_TARGETS: [(&str, &str); 8] = [
+pub const FUZZ_TARGETS: [(&str, &str); 15] = [
+    ("dewey_patterns", "C02"),
+    ("globs", "C05"),
+    ("best_match", "C06"),
+    ("summary_texts", "C08"),
+    ("distinfo_lines", "C11"),
+    ("pkgnames", "C18"),
+    ("paths", "C19"),
     ("versions", "C01"),
     ("version_laws", "C03"),
     ("braces", "C04"),
@@ -91,6 +98,46 @@ pub fn run_checked(target: &str, data: &[u8]) -> Result<(), String> {
             let lines: Vec<B> = body.split(|b| *b == b'\n').take(40).map(|l| B(l.to_vec())).collect();
             c14::check_doc(&c14::DocCase { lines, final_newline }, &mut obs)
         }
+        "dewey_patterns" => {
+            // pattern LF name; C02 with the free-form oracle (compile agreement, KF-1 leniency)
+            let mut parts = data.splitn(2, |b| *b == b'\n').map(|p| String::from_utf8_lossy(p).into_owned());
+            let pattern = cap_digit_runs(&parts.next().unwrap_or_default(), 18);
+            let name = cap_digit_runs(&parts.next().unwrap_or_default(), 18);
+            c02::check_free(&c02::Case { pattern, name }, &mut obs)
+        }
+        "globs" => {
+            let mut parts = data.splitn(2, |b| *b == b'\n').map(|p| String::from_utf8_lossy(p).into_owned());
+            let pattern = parts.next().unwrap_or_default();
+            let name = parts.next().unwrap_or_default();
+            c05::check(&c05::Case { pattern, name }, &mut obs)
+        }
+        "best_match" => {
+            let mut parts = data.splitn(4, |b| *b == b'\n').map(|p| String::from_utf8_lossy(p).into_owned());
+            let pattern = parts.next().unwrap_or_default();
+            let a = parts.next().unwrap_or_default();
+            let b = parts.next().unwrap_or_default();
+            let c = parts.next().unwrap_or_default();
+            c06::check_any(&c06::AnyCase { pattern, a, b, c }, &mut obs)
+        }
+        "summary_texts" => {
+            let final_newline = data.last() == Some(&b'\n');
+            let body = if final_newline { &data[..data.len() - 1] } else { data };
+            let text = String::from_utf8_lossy(body).into_owned();
+            let lines: Vec<String> = if text.is_empty() { vec![] } else { text.split('\n').map(String::from).collect() };
+            c08::check(&c08::Case { lines, faults: 0, final_newline }, &mut obs)
+        }
+        "distinfo_lines" => {
+            let final_newline = data.last() == Some(&b'\n');
+            let body = if final_newline { &data[..data.len() - 1] } else { data };
+            let lines: Vec<B> = body.split(|b| *b == b'\n').take(60).map(|l| B(l.to_vec())).collect();
+            c11::check(&c11::Case { lines, final_newline }, &mut obs)
+        }
+        "pkgnames" => c18::check(&c18::Case { name: String::from_utf8_lossy(data).into_owned() }, &mut obs),
+        "paths" => match data.split_first() {
+            Some((sel, rest)) if sel % 2 == 0 => c19::check_path(&c19::PathCase { path: String::from_utf8_lossy(rest).into_owned() }, &mut obs),
+            Some((_, rest)) => c19::check_dep(&c19::DepCase { text: String::from_utf8_lossy(rest).into_owned() }, &mut obs),
+            None => Ok(()),
+        },
         "c17_pattern" => {
             targets::run("pattern", data);
             Ok(())
@@ -191,12 +238,61 @@ fn seeds_c17_ops() -> Vec<Vec<u8>> {
     seeds_c17(&["summary_ops"], false)
 }
 
+fn seeds_c02() -> Vec<Vec<u8>> {
+    samples(c02::free_strategy(Tier::Quick), 200).into_iter().map(|c| format!("{}\n{}", c.pattern, c.name).into_bytes()).collect()
+}
+fn seeds_c05() -> Vec<Vec<u8>> {
+    samples(c05::case_strategy(Tier::Quick), 200).into_iter().map(|c| format!("{}\n{}", c.pattern, c.name).into_bytes()).collect()
+}
+fn seeds_c06() -> Vec<Vec<u8>> {
+    samples(c06::any_strategy(Tier::Quick), 200).into_iter().map(|c| format!("{}\n{}\n{}\n{}", c.pattern, c.a, c.b, c.c).into_bytes()).collect()
+}
+fn seeds_c08() -> Vec<Vec<u8>> {
+    samples(c08::case_strategy(Tier::Quick), 150)
+        .into_iter()
+        .map(|c| {
+            let mut t = c.lines.join("\n");
+            if c.final_newline {
+                t.push('\n');
+            }
+            t.into_bytes()
+        })
+        .collect()
+}
+fn seeds_c11() -> Vec<Vec<u8>> {
+    samples(c11::case_strategy(Tier::Quick), 150)
+        .into_iter()
+        .map(|c| {
+            let mut t = c.lines.iter().map(|l| l.0.clone()).collect::<Vec<_>>().join(&b"\n"[..]);
+            if c.final_newline {
+                t.push(b'\n');
+            }
+            t
+        })
+        .collect()
+}
+fn seeds_c18() -> Vec<Vec<u8>> {
+    samples(c18::case_strategy(Tier::Quick), 200).into_iter().map(|c| c.name.into_bytes()).collect()
+}
+fn seeds_c19() -> Vec<Vec<u8>> {
+    let mut v: Vec<Vec<u8>> = samples(c19::random_paths(Tier::Quick), 100).into_iter().map(|c| [vec![0u8], c.path.into_bytes()].concat()).collect();
+    v.extend(samples(c19::dep_random(Tier::Quick), 150).into_iter().map(|c| [vec![1u8], c.text.into_bytes()].concat()));
+    v
+}
+
 /// the campaigns that serve a property (thorough tier)
 pub fn campaigns(property: &str) -> Vec<Campaign> {
     let c = |target, runs, max_len, dict, seeds| Campaign { target, runs, workers: 8, max_len, dict, seeds };
     match property {
         "C01" => vec![c("versions", 250_000, 96, "versions.dict", seeds_versions)],
+        "C02" => vec![c("dewey_patterns", 1_000_000, 128, "patterns.dict", seeds_c02)],
         "C03" => vec![c("version_laws", 100_000, 160, "versions.dict", seeds_versions)],
+        "C05" => vec![c("globs", 1_000_000, 96, "patterns.dict", seeds_c05)],
+        "C06" => vec![c("best_match", 150_000, 128, "patterns.dict", seeds_c06)],
+        "C08" => vec![c("summary_texts", 800_000, 1024, "docs.dict", seeds_c08)],
+        "C11" => vec![c("distinfo_lines", 800_000, 1024, "docs.dict", seeds_c11)],
+        "C18" => vec![c("pkgnames", 500_000, 96, "versions.dict", seeds_c18)],
+        "C19" => vec![c("paths", 1_000_000, 96, "patterns.dict", seeds_c19)],
         "C04" => vec![c("braces", 400_000, 96, "", seeds_random)],
         "C09" => vec![c("stream_chunks", 150_000, 160, "", seeds_random)],
         "C14" => vec![c("plist_lines", 600_000, 256, "docs.dict", seeds_plist)],
